@@ -55,7 +55,8 @@ Case gen_C07(uint64_t seed, long run, const GenCfg &g, const char *inflight) {
     for (int k = 0; k < K; k++) {
         EnvSpec e; e.fill = ilu ? t.tuning[5] : fills[r.below(8)];
         e.garbage = (int)r.below(G_NUM); e.wsgarbage = (int)r.below(G_NUM);
-        if (r.chance(0.5)) {
+        if (k == 0 && !ilu) e.fill = 1; // every case meets the tightest estimate once under library allocation: most in-flight expansions
+        if (k == 0 || r.chance(0.5)) {
             e.lwork = 0; e.label = "system";
             if (r.chance(0.4)) { FaultSpec f; f.k = r.range(1, 14); f.persist = false; e.faults.push_back(f); e.label = "system+enomem-once"; }
         } else {
